@@ -124,7 +124,32 @@ func frontBody(q frontReq, r *RNG) string {
 		return ""
 	case "trunc":
 		d := frontValidXML(q, r)
-		// cut strictly inside the document, after the first '<'
+		// not well-formed XML: a truncation strictly inside the document, or one of the classic well-formedness errors a
+		// lenient parser lets through
+		switch r.Intn(8) {
+		case 0: // an end tag that does not match its start tag
+			if i := strings.LastIndex(d, "</"); i >= 0 {
+				if j := strings.Index(d[i:], ">"); j > 2 {
+					return d[:i+2] + "x" + d[i+2:]
+				}
+			}
+		case 1: // a bare ampersand in character data
+			if i := strings.LastIndex(d, "</"); i >= 0 {
+				return d[:i] + "a & b" + d[i:]
+			}
+		case 2: // an undeclared entity
+			if i := strings.LastIndex(d, "</"); i >= 0 {
+				return d[:i] + "&bogus;" + d[i:]
+			}
+		case 3: // an unquoted attribute value / an attribute without value on the root element
+			if i := strings.Index(d[1:], ">"); i >= 0 {
+				k := i + 1
+				if d[k-1] == '/' {
+					k--
+				}
+				return d[:k] + r.Pick([]string{" verif=1", " verif"}) + d[k:]
+			}
+		}
 		return d[:1+r.Intn(len(d)-2)]
 	case "random":
 		n := r.Range(1, 40)
@@ -237,6 +262,7 @@ func runFront(q frontReq, body string) string {
 		frontHeaders(q, req.Header)
 		rec := httptest.NewRecorder()
 		mutated := false
+		nilObject := false // the backend was handed a nil calendar / card
 		altered := false // a backend call carried a path that is neither the request path nor one of the backend's own
 		switch q.srv {
 		case "cal":
@@ -249,6 +275,7 @@ func runFront(q frontReq, body string) string {
 			for _, c := range b.log.take() {
 				mutated = mutated || isMutating(c)
 				altered = altered || callPathAltered(c, known)
+				nilObject = nilObject || c == "NilObject"
 			}
 		case "card":
 			px := q.prefix
@@ -260,6 +287,7 @@ func runFront(q frontReq, body string) string {
 			for _, c := range b.log.take() {
 				mutated = mutated || isMutating(c)
 				altered = altered || callPathAltered(c, known)
+				nilObject = nilObject || c == "NilObject"
 			}
 		case "prin":
 			webdav.ServePrincipal(rec, req, &webdav.ServePrincipalOptions{CurrentUserPrincipalPath: "/u/",
@@ -271,6 +299,9 @@ func runFront(q frontReq, body string) string {
 			if _, err := treeOfBytes(rec.Body.Bytes()); err != nil {
 				return fmt.Sprintf("%d-broken-body %s", res.StatusCode, b01(mutated))
 			}
+		}
+		if nilObject {
+			return fmt.Sprintf("%d-nil-object %s", res.StatusCode, b01(mutated))
 		}
 		if altered {
 			return fmt.Sprintf("%d %s altered-path", res.StatusCode, b01(mutated))
